@@ -179,6 +179,10 @@ func (m *evalModel) saveErrSites() []*ssa.Call {
 				faithful = false
 				continue
 			}
+			if vals[0] == ssa.Value(v.Save) {
+				n++ // return t.saveInfo(record): the write's error as it is
+				continue
+			}
 			if !core.IsNilConst(vals[0]) {
 				continue
 			}
